@@ -48,7 +48,8 @@ def theta_layout(st):
         t += [("u32le", st["n"]), ("u32", ANY)]
     if pre > 2:
         t += [("u64le", st["theta"])]
-    t += [(rep("u64le"), ANY)]
+    if st["n"] > 0:
+        t += [(rep("u64le"), ANY)]
     return t
 
 
@@ -88,7 +89,7 @@ def hll_layout(st):
     flags = 16 if st["ooo"] else 0
     t = [("u8", 10), ("u8", 1), ("u8", 7), ("u8", st["lgk"]), ("u8", ANY), ("u8", flags), ("u8", st["curmin"] if typ == 0 else 0), ("u8", 2 | (typ << 2)),
          ("f64le", "hip"), ("f64le", "kxq0"), ("f64le", "kxq1"), ("u32le", "numatcurmin"), ("u32le", st["aux"] if typ == 0 else 0), ("bytes", ANY)]
-    if typ == 0:
+    if typ == 0 and st["aux"]:
         t += [(rep("u32le"), ANY)]
     return t
 
@@ -280,3 +281,76 @@ def state_env(fam, st, leaf_keys):
                     env[k] = v
                 break
     return env
+
+
+# ================================================================================================ reader-side images (C13)
+# every variant a conforming Java/C++ writer can emit, including forms this library never writes itself
+def theta_images():
+    sh = 0x3af1
+    for st in theta_states():
+        yield ("v3 " + ",".join("%s=%s" % kv for kv in sorted(st.items()) if kv[0] != "sh"), theta_layout(st), {})
+    # single-item flag (0x20) as written by Java's SingleItemSketch
+    st = {"empty": False, "n": 1, "theta": MAXT, "ordered": True, "sh": sh}
+    lay = theta_layout(st)
+    lay[4] = ("u8", 2 | 8 | 16 | 32)
+    yield ("v3 single-item flag", lay, {})
+    # serial version 1: three preamble longs, no seed hash, no flags
+    yield ("v1 estimating", [("u8", 3), ("u8", 1), ("u8", 3), ("u8", ANY), ("u32", ANY), ("u32le", 2), ("u32", ANY), ("u64le", 12345678901), (rep("u64le"), ANY)], {})
+    # serial version 2
+    yield ("v2 empty", [("u8", 1), ("u8", 2), ("u8", 3), ("u8", ANY), ("u16", ANY), ("u16le", sh)], {})
+    yield ("v2 exact", [("u8", 2), ("u8", 2), ("u8", 3), ("u8", ANY), ("u16", ANY), ("u16le", sh), ("u32le", 2), ("u32", ANY), (rep("u64le"), ANY)], {})
+    yield ("v2 estimating", [("u8", 3), ("u8", 2), ("u8", 3), ("u8", ANY), ("u16", ANY), ("u16le", sh), ("u32le", 2), ("u32", ANY), ("u64le", 12345678901), (rep("u64le"), ANY)], {})
+    # serial version 4 (compressed), exact and estimating; 16 entries = two full blocks, no tail
+    for pre in (1, 2):
+        t = [("u8", pre), ("u8", 4), ("u8", 3), ("u8", 20), ("u8", 1), ("u8", 2 | 8 | 16), ("u16le", sh)]
+        if pre == 2:
+            t += [("u64le", 12345678901)]
+        t += [(rep("u8"), ANY), (rep("bytes"), ANY)]
+        yield ("v4 pre=%d" % pre, t, {"tail_optional": True})
+
+
+def hll_images():
+    for st in hll_states():
+        yield ("compact " + ",".join("%s=%s" % kv for kv in sorted(st.items())), hll_layout(st), {})
+    # updatable (non-compact) list and set tables, out-of-order and compact flags on arrays
+    for tgt in (0, 1, 2):
+        yield ("list updatable tgt=%d" % tgt, [("u8", 2), ("u8", 1), ("u8", 7), ("u8", 11), ("u8", 3), ("u8", 0), ("u8", 3), ("u8", 0 | (tgt << 2)), (rep("u32le"), ANY)], {})
+        yield ("set updatable tgt=%d" % tgt, [("u8", 3), ("u8", 1), ("u8", 7), ("u8", 11), ("u8", 5), ("u8", 0), ("u8", ANY), ("u8", 1 | (tgt << 2)), ("u32le", 9), (rep("u32le"), ANY)], {})
+        for flags in (8, 8 | 16, 16 | 32):
+            t = [("u8", 10), ("u8", 1), ("u8", 7), ("u8", 11), ("u8", ANY), ("u8", flags), ("u8", 2 if tgt == 0 else 0), ("u8", 2 | (tgt << 2)),
+                 ("f64le", "hip"), ("f64le", "kxq0"), ("f64le", "kxq1"), ("u32le", "numatcurmin"), ("u32le", 2 if tgt == 0 else 0), ("bytes", ANY)]
+            if tgt == 0:
+                t += [(rep("u32le"), ANY)]
+            yield ("array tgt=%d flags=%d" % (tgt, flags), t, {})
+
+
+def td_images():
+    for st in td_states():
+        yield ("double " + ",".join("%s=%s" % kv for kv in sorted(st.items())), td_layout(st), {"is_f32": 0})
+        # float variant: f32 values, u32 weights
+        lay = []
+        for k, v in td_layout(st):
+            if k.startswith("f64le"):
+                k = k.replace("f64le", "f32le")
+            elif k.startswith("u64le"):
+                k = k.replace("u64le", "u32le")
+            lay.append((k, v))
+        yield ("float " + ",".join("%s=%s" % kv for kv in sorted(st.items())), lay, {"is_f32": 1})
+
+
+def same_as_writer(fam):
+    def gen():
+        for st in FAMILIES[fam]["states"]():
+            yield (",".join("%s=%s" % kv for kv in sorted(st.items())), FAMILIES[fam]["layout"](st), {})
+    return gen
+
+
+def bloom_images():
+    for name, lay, opt in same_as_writer("bloom")():
+        yield (name, lay, opt)
+    st = {"empty": False, "nh": 5, "seed": 9001, "words": 4, "bits": 0xFFFFFFFFFFFFFFFF}
+    yield ("dirty bit count", bloom_layout(st), {})
+
+
+IMAGES = {"theta": theta_images, "hll": hll_images, "tdigest": td_images, "bloom": bloom_images, "countmin": same_as_writer("countmin"),
+          "frequencies": same_as_writer("frequencies"), "cpc": same_as_writer("cpc")}
